@@ -271,3 +271,59 @@ def check_call_arity(run, rid, prog, funcs, what):
                            loc=f.loc(bad[0][0]) if bad else f.loc(),
                            sample={"function": f.short, "resolved_calls": ncalls})
     return n
+
+
+# ----------------------------------------------------------------------
+# isinstance(x, T): every member of T must be a class.  isinstance walks a tuple from the left and
+# stops at the first match, so a member that is not a class (numpy.array is a function) raises
+# TypeError exactly for the argument kinds listed after it - the documented kinds of the branch.
+def _resolve_object(dotted_name):
+    parts = dotted_name.split(".")
+    for k in range(len(parts), 0, -1):
+        try:
+            obj = importlib.import_module(".".join(parts[:k]))
+        except Exception:
+            continue
+        for p in parts[k:]:
+            if not hasattr(obj, p):
+                return None, False
+            obj = getattr(obj, p)
+        return obj, True
+    return None, False
+
+
+def check_isinstance_types(run, rid, prog, funcs, what):
+    import builtins
+    import typing
+    n = 0
+    for f in funcs:
+        prog.consulted.add(f.relpath)
+        for c in [x for x in walk_no_nested(f.node) if isinstance(x, ast.Call) and isinstance(x.func, ast.Name)
+                  and x.func.id in ("isinstance", "issubclass") and len(x.args) == 2]:
+            t = c.args[1]
+            members = list(t.elts) if isinstance(t, ast.Tuple) else [t]
+            bad = []
+            for i, m in enumerate(members):
+                verdict = None       # True: a class, False: certainly not a class, None: unknown
+                ext = prog.external_name(f, m) if isinstance(m, (ast.Attribute, ast.Name)) else None
+                if ext is not None:
+                    obj, found = _resolve_object(ext)
+                    if found:
+                        verdict = isinstance(obj, type) or type(obj).__module__ == "typing" \
+                            or isinstance(obj, getattr(typing, "_GenericAlias", ()))
+                elif isinstance(m, ast.Name):
+                    r = prog.resolve_name(f.module, m.id, f)
+                    if r is not None and not isinstance(r, tuple):
+                        verdict = not isinstance(r, FuncInfo)
+                    elif r is None and hasattr(builtins, m.id):
+                        verdict = isinstance(getattr(builtins, m.id), type)
+                if verdict is False:
+                    bad.append((i, norm(m)))
+            n += 1
+            after = [norm(x) for i, _ in bad[:1] for x in members[i + 1:]]
+            run.obligation(rid, f.short, not bad, key="isinstance:" + norm(c)[:70],
+                           message="%s tests %s, but %s is not a class: the test raises TypeError for every argument "
+                                   "that is none of the kinds listed before it (%s and anything else)"
+                                   % (f.short, norm(c), ", ".join(b for _, b in bad), ", ".join(after) or "the last kind"),
+                           loc=f.loc(c), sample={"function": f.short, "test": norm(c)})
+    return n
